@@ -93,6 +93,8 @@ def benign():
         fa = m.get('false_alarms') or []
         lost = m.get('extraction_lost') or []
         outcome = 'all exit 0' if not fa else 'FALSE ALARM: ' + ', '.join(fa)
+        if m.get('first_run_false_alarm'):
+            outcome += ' (re-run; in the first, heavily parallel evaluation %s reported it: the wall-clock case guard, §11)' % m['first_run_false_alarm']['check']
         if lost:
             outcome += '; extraction tie lost (reported in the evidence, not an alarm): ' + ', '.join(lost)
         rows.append('| %s | %s | %s | %s |' % (name, first, ' '.join(sorted(m.get('checks', {}))), outcome))
